@@ -24,9 +24,9 @@ rundemo() {
 PLAIN=$(/venv/bin/python -m pytest -q -p no:cacheprovider --timeout=900 --continue-on-collection-errors 2>&1 | tail -1)
 SHIM=$(PYTHONPATH=/tmp/shim /venv/bin/python -m pytest -p vshim -q -p no:cacheprovider --timeout=900 --continue-on-collection-errors 2>&1 | tail -1)
 D1=$(rundemo); T1=$(tail -3 /tmp/demo-$ID.log | tr '\n' ' ' | cut -c1-300)
-git stash -q -- seismic_zfp
+git apply -R $SRC/_seed/patch.diff
 D0=$(rundemo)
-git stash pop -q
+git apply $SRC/_seed/patch.diff
 echo "plain: $PLAIN"; echo "shim:  $SHIM"; echo "demo with change: exit $D1 ($T1)"; echo "demo without change: exit $D0"
 OK=yes
 case "$PLAIN" in *"93 passed"*) ;; *) OK=no;; esac
@@ -45,7 +45,7 @@ except Exception:
     m = {}
 m['confirmed_by_verifier'] = {
     'how': 'fresh scratch worktree of /repo HEAD, git apply patch.diff; pinned suite; suite under the version shim '
-           '(PYTHONPATH=/tmp/shim -p vshim; the shim is /verif/triage/vshim.py); demo with the change; git stash; demo without',
+           '(PYTHONPATH=/tmp/shim -p vshim; the shim is /verif/triage/vshim.py); demo with the change; git apply -R; demo without',
     'pytest_plain_with_change': plain, 'pytest_shim_with_change': shim,
     'demo_with_change_exit': int(d1), 'demo_without_change_exit': int(d0),
     'demo_cmd': 'cd <worktree> && PYTHONPATH=<dir of vshim.py>:<worktree> /venv/bin/python _seed/' + demo,
